@@ -4,6 +4,7 @@ import NfpmModel.Lemmas.PathLemmas
 import NfpmModel.Lemmas.VersionLemmas
 import NfpmModel.Generated.G11Templates
 import NfpmModel.Generated.G1Arch
+import NfpmModel.Lemmas.ArLemmas
 /-
   C02  Metadata fidelity: identity, version, architecture, relations, description.
 
@@ -526,5 +527,45 @@ example : RpmRel.WfRel { name := b!"libfoo", version := b!"1.2-3", sense := 12 }
 /-- the translator regenerated, on this run and from the working tree, every table this property is tied through
     (when an extraction fails the reviewed table stands in so that the model still compiles, and this stops checking) -/
 theorem translator_tables_regenerated : Generated.extracted_G11Templates = true ∧ Generated.extracted_G1Arch = true := by decide
+
+/-! ### archlinux pkgrel: a release written as a number is carried, 0 included -/
+section ArchRelease
+open Nfpm.Ar
+
+theorem natToDec_head_not_sign (n : Nat) : ∀ c rest, natToDec n = c :: rest → c ≠ minus ∧ c ≠ plus := by
+  intro c rest h
+  have hc := (natToDec_digits n c (by rw [h]; simp)).1
+  constructor <;> (intro e; subst e; revert hc; decide)
+
+theorem natToDec_all_isDigit (n : Nat) : (natToDec n).all isDigit = true := by
+  rw [List.all_eq_true]
+  intro c hc
+  have := (natToDec_digits n c hc).1
+  simpa [isDigit, isDigitB] using this
+
+/-- **a release written as a number is the pkgrel archlinux states – 0 included** (strconv.Atoi ∘ %d) -/
+theorem atoi_natToDec (n : Nat) (h : n < 2 ^ 63) : atoi (natToDec n) = some (n : Int) := by
+  have hne := natToDec_ne_nil n
+  have hdig := natToDec_all_isDigit n
+  have hval : (natToDec n).foldl (fun (acc : Nat) (c : UInt8) => acc * 10 + (c.toNat - 48)) 0 = n := by
+    have := decVal_natToDec n
+    simpa [decVal] using this
+  unfold atoi
+  cases hd : natToDec n with
+  | nil => exact absurd hd hne
+  | cons c rest =>
+    obtain ⟨h1, h2⟩ := natToDec_head_not_sign n c rest hd
+    rw [hd] at hdig hval
+    simp only [if_neg h1, if_neg h2]
+    simp [hdig, hval, h]
+
+theorem archPkgrel_of_number (i : VInfo) (n : Nat) (h : n < 2 ^ 63) (hr : i.release = natToDec n) :
+    archPkgrel i = n := by
+  unfold archPkgrel
+  rw [hr, atoi_natToDec n h]; rfl
+
+example : archPkgrel { release := b!"0" } = 0 ∧ archPkgrel { release := b!"x" } = 1 ∧ archPkgrel { release := [] } = 1 := by
+  decide
+end ArchRelease
 
 end Nfpm.Props.C02
